@@ -449,9 +449,21 @@ var c15SafeStrs = []string{"", "x", "hello", "1", "true", "v-1", "a.b", "Z_9"}
 
 func c15Pick(rng *Rng, l []string) string { return l[rng.Intn(len(l))] }
 
+// c15Calm (set by the nested generator, harness/c15n.go): fewer malformed texts and `required` options per field, so
+// that a type with a dozen leaves is still bound without an error most of the time.  Off for everything else; the
+// number of rng draws does not depend on it.
+var c15Calm bool
+
+func c15OddPct() int {
+	if c15Calm {
+		return 3
+	}
+	return 15
+}
+
 // c15Text returns a text for base kind b: mostly valid, sometimes hostile; safe = usable in a cookie/header.
 func c15Text(rng *Rng, b string, safe bool) string {
-	odd := rng.Intn(100) < 15
+	odd := rng.Intn(100) < c15OddPct()
 	switch {
 	case b == "b":
 		if odd {
@@ -525,8 +537,12 @@ func c15RandContent(rng *Rng, hostile bool) []byte {
 	}
 	opt := ""
 	switch rng.Intn(10) {
-	case 0, 1, 2:
+	case 0:
 		opt = ",required"
+	case 1, 2:
+		if !c15Calm {
+			opt = ",required"
+		}
 	case 3:
 		opt = ",omitempty"
 	case 4:
@@ -671,7 +687,11 @@ func c15CaseVariant(rng *Rng, s string) string {
 }
 
 func c15JSONAtomFor(rng *Rng, base string) string {
-	if rng.Intn(100) < 12 {
+	garb := 12
+	if c15Calm {
+		garb = 3
+	}
+	if rng.Intn(100) < garb {
 		return c15Pick(rng, []string{"n", "t", "i1", "s78", "d1.5", "o", "i300", "i-1", "s-", "i99999999999999999999"})
 	}
 	switch {
@@ -941,6 +961,9 @@ func genC15(tier string, rng *Rng) {
 
 	// sequences of entry-point calls (Bind, BindAndValidate, BindPath/Form/Query/Header) on one binder
 	genC15Seq(tier, rng)
+
+	// nested struct types, streamed bodies, every request bound twice (extension X15, harness/c15n.go)
+	genC15N(tier, rng)
 
 	// structured cases in cold/warm cache orders: A B A on one session binder, then the global binder, then a fresh one
 	for i := 0; i < nRand; i++ {
